@@ -67,7 +67,7 @@ func b2s(b bool) string {
 // Generator "C07check": random playouts on 3x3 and 4x4 boards (wins in one are frequent there), waitUndo asked after
 // every ply from the second on.
 func genCheck(c *Ctx) {
-	n := c.Scale(160, 3000)
+	n := c.Scale(160, 1600)
 	for i := 0; i < n; i++ {
 		size := 3
 		if c.R.Chance(1, 3) {
